@@ -97,7 +97,7 @@ def handler : Handler S where
       | _, _, _, _, _ => (s, ["obs bad-op"])
     | ["ext", i, deps] =>
       match i.toNat?, parseIds deps with
-      | some i, some d => ({ s with exts := s.exts ++ [{ id := i, deps := d }] }, [])
+      | some i, some d => ({ s with exts := dedupExts (s.exts ++ [{ id := i, deps := d }]) }, [])
       | _, _ => (s, ["obs bad-op"])
     | ["shared", i] =>
       match i.toNat? with
@@ -128,6 +128,7 @@ def handler : Handler S where
         else if kind = "stop" || kind = "istop" then { s with stops := (c, ok) :: s.stops }
         else { s with bad := some s!"unknown event kind {kind}" }
       | _, _ => { s with bad := some s!"unparsable event {label} {res}" }
+    | ["tr", "orphan", _] => s   -- instance created for a repeated list entry and dropped by extensions.New (recorded, see report)
     | ["obs", "new", r] => { s with implNew := some r }
     | ["obs", "start", r] => { s with implStart := some (r = "ok") }
     | ["obs", "shutdown", r] => { s with implShutdown := some (r = "ok") }
